@@ -5,7 +5,7 @@ META = {
     "level_text": "Bounded symbolic execution of the real modified-set propagation (System::update_modified_cnst_set[_rec], remove_all_modified_cnst_set) on a fixed "
                   "3-constraint chain, for every value of the visit counter and of the per-variable stamps. Only the structural half of the property (which resources "
                   "are re-solved) is decided; equality of the computed rates needs the solver on symbolic doubles, which no back end decides (see C15/C16).",
-    "bounds": "chain of 3 constraints and 3 variables, every subset of disabled variables, every start constraint; visit counter symbolic over 1..2^32-1 (wrap included), "
+    "bounds": "chain of 3 constraints and 3 variables, every subset of disabled variables, every start constraint; real modifications (suspend, penalty, bound, free) of each variable; visit counter symbolic over 1..2^32-1 (wrap included), "
               "per-variable stamps symbolic below the counter; unwind 8",
     "outside": "the numeric half (rates equal to a from-scratch solve), larger graphs, histories (induction over the stamps only)",
     "stubs": ["xbt mallocator -> plain new/free", "xbt logging -> silent", "abort() = violation"],
@@ -22,6 +22,13 @@ def queries(tier):
                 continue
             qs.append(Query(f"propagate_dis{dis:03b}_from{start}", "C17/selective.cpp", "harness_selective", dict(P_MODE=0, P_DIS=dis, P_START=start), SRC,
                             unwind=8, cap_s=600, mem_gb=12, no_pointer_overflow=True))
+    for var in (0, 1, 2):
+        for chg, cname in enumerate(("suspend", "penalty", "bound", "free")):
+            for dis in ((0,) if tier == "quick" else (0, 1, 2, 4)):
+                if (dis >> var) & 1:
+                    continue
+                qs.append(Query(f"change_{cname}_v{var}_dis{dis:03b}", "C17/selective.cpp", "harness_selective", dict(P_MODE=2, P_DIS=dis, P_VAR=var, P_CHG=chg), SRC,
+                                unwind=8, cap_s=600, mem_gb=12, no_pointer_overflow=True, paths=True))
     for dis in (0, 2, 7):
         qs.append(Query(f"rearm_after_solve_dis{dis:03b}", "C17/selective.cpp", "harness_selective", dict(P_MODE=1, P_DIS=dis, P_START=0), SRC, unwind=8, cap_s=600,
                         mem_gb=12, no_pointer_overflow=True))
